@@ -117,7 +117,8 @@ CHECKS = {
         "text": "Theorems over exact rationals: squared distance symmetric, non-negative, zero on the diagonal; the wrapped squared distance of two atoms "
                 "inside an orthogonal cell is below every one of the 27 image distances and equal to one of them (per-axis case analysis, linear arithmetic); "
                 "the bounding-box fold returns bounds that contain every coordinate and are attained; chains_in_contact is exactly 'differently named chains "
-                "with an atom pair closer than the cut-off' and symmetric; the tree queries equal the brute-force scan under rstar's stated contract. "
+                "with an atom pair closer than the cut-off' and symmetric, empty for every cut-off that is not positive, and for a positive one the comparison "
+                "of squares is the comparison of distances; the tree queries equal the brute-force scan under rstar's stated contract. "
                 "The Rust functions are tied to the model on grid coordinates where binary64 arithmetic is exact, radii from the regenerated element table.",
         "design_ref": "DESIGN.md section 6 C14",
         "note": "Trusted: Coq kernel, T2c, extraction, harness; rstar internals (contract as section hypotheses); IEEE sqrt; distances on query "
